@@ -127,7 +127,10 @@ def units():
                 continue
             for f1, (n1, b1, v1) in FL3.items():
                 for f2, (n2, b2, v2) in FL3.items():
-                    add('swap2.%s_%s.%s.%s_%s' % (f1, f2, et, s1, s2), (v1 % s1) + '__swap2__r' + (v2 % s2), ['C13', 'C01', 'C02', 'C06'], n1, b1 % s1, s1, elem, tier=tier)
+                    # mixed size types between two growing vectors are in the quick tier too (a size that fits only one side)
+                    t2 = 'quick' if (s1 != s2 and f1 != 'static' and f2 != 'static') else tier
+                    add('swap2.%s_%s.%s.%s_%s' % (f1, f2, et, s1, s2), (v1 % s1) + '__swap2__r' + (v2 % s2), ['C13', 'C01', 'C02', 'C06'], n1, b1 % s1, s1, elem, tier=t2)
+                    us[-1]['throws_reachable'] = not (f1 == 'std' and f2 == 'std' and s1 == s2)
                     us[-1]['defs'].update({'FLAVOUR2': str(n2), 'BASE2_T': 'struct ' + (b2 % s2), 'KMAX2': SIZES[s2][1], 'S2_T': SIZES[s2][0]})
     # ---- FlatSet over amc::vector<E, A, size_type>: 8-bit size_type in the quick tier, the default 32-bit one in the thorough tier
     for fsz, tier in (('u8', 'quick'), ('u32', 'thorough')):
@@ -146,6 +149,20 @@ def units():
             us[-1]['defs']['FS_T'] = 'struct ' + FS
             if m.startswith('insert__pE'):
                 us[-1]['cases'] = ['g_has && HINT_A', 'g_has && !HINT_A', '!g_has && HINT_A']
+    # ---- SmallSet<E, 4, GhostCmp, A, SetType>: inline FixedCapacityVector (FL_STATIC, u8) + abstract set (SetSpec)
+    SS = 'SmallSet_E_4_GhostCmp_A_FlatSet_E_GhostCmp_A_Vector_E_A_u32_Dyn_0'
+    FF = SS + '___FindFunctor_ElemNR'
+    for m, props, rk in [('find__rE_c', ['C04', 'C11', 'C19', 'C20'], 1), ('contains__rE_c', ['C04', 'C19', 'C20'], 2), ('count__rE_c', ['C04', 'C19', 'C20'], 2),
+                         ('size__v_c', ['C04', 'C20'], 3), ('empty__v_c', ['C04', 'C20'], 4), ('begin__v_c', ['C04', 'C11', 'C20'], 5), ('end__v_c', ['C04', 'C11', 'C20'], 6),
+                         ('insert__rE', ['C04', 'C05', 'C11', 'C02', 'C09'], 0), ('insert__rrE', ['C04', 'C05', 'C11', 'C02', 'C09'], 0),
+                         ('erase__rE', ['C04', 'C11', 'C02'], 0), ('erase__pE_penable_if_is_same_pE_pE__value__type', ['C04', 'C11', 'C02'], 0),
+                         ('clear__v', ['C04', 'C02'], 0)]:
+        add('ss.%s.NR' % (m.split('__')[0] + ('_' + m.split('__')[1][:3] if m.startswith(('insert', 'erase')) else '')), SS + '__' + m, props, 3, 'StaticVectorBase_E_u8', 'u8', 'ElemNR',
+            throws_reachable=m.startswith('insert'))
+        us[-1]['cfg'] = 'sets17'
+        us[-1]['extra_reach'] = [FF + '__op_call__rE_c']
+        us[-1]['defs'].update({'WITH_SETS': '1', 'SS_T': 'struct ' + SS, 'SS_N': '4', 'RESULT_KIND': str(rk), 'FINDFUNCTOR_T': 'struct ' + FF,
+                               'FINDFUNCTOR_CALL(fp, e)': FF + '__op_call__rE_c(fp, e)'})
     for sz in ('u8',):
         add('SafeNextCapacity.%s' % sz, 'SafeNextCapacity__%s_u64_b' % sz, ['C08', 'C18'], 1, svb('ElemNR', sz), sz, 'ElemNR')
     add('ExceptionGrowingPolicy.Check', 'Exc__Check__u64_u64', ['C08'], 1, svb('ElemNR', 'u8'), 'u8', 'ElemNR')
